@@ -235,7 +235,10 @@ def monitor(work, module, cfg, what, stats, npreds, timeout=900):
         raise v.Inconclusive("monitor run %s did not complete (%s)" % (what, r.error))
     stats["monitor_states"] = stats.get("monitor_states", 0) + r.distinct
     stats["monitor_predicates_evaluated"] = stats.get("monitor_predicates_evaluated", 0) + r.distinct * npreds
-    return [(p, int(l)) for p, l in r.prints("VIOL")]
+    res = []
+    for parts in r.prints("VIOL"):
+        res.append((parts[0], int(parts[1])) + tuple(parts[2:]))
+    return res
 
 
 def drive(binary, test, job, work, tag, timeout):
@@ -361,9 +364,9 @@ def new_stats():
 
 def onsets(viols, resets, state_preds):
     """(pred, line, trace start): for state predicates that stay false, only the step at which they become false."""
-    bad = set(viols)
+    bad = set((x[0], x[1]) for x in viols)
     res = []
-    for pred, line in sorted(viols, key=lambda x: x[1]):
+    for pred, line in sorted(set((x[0], x[1]) for x in viols), key=lambda x: x[1]):
         idx = line - 1
         start = resets[bisect.bisect_right(resets, idx) - 1]
         if pred in state_preds and (pred, line - 1) in bad and idx - 1 > start:
@@ -374,7 +377,7 @@ def onsets(viols, resets, state_preds):
 
 # ================================================================ C13, part 1: write-abort state machine (MuxWrite)
 
-MW_PREDS = ["Clean", "LaterWritesSucceed", "NoStuckWriter", "CountExact"]
+MW_PREDS = ["Clean", "LaterWritesSucceed", "NoStuckWriter", "CountExact", "NoSpuriousTimeout"]
 
 
 def mw_label(e):
@@ -432,7 +435,7 @@ def mw_consts(writers, aborters, rounds):
     return ["Writers = " + tla_set(writers), "Aborters = " + tla_set(aborters), "ArmMayFail = TRUE", "Rounds = %d" % rounds]
 
 
-MW_INV = ["INVARIANTS Clean LaterWritesSucceed ArmedOnlyBlocked", "PROPERTY NoStuckWriter"]
+MW_INV = ["INVARIANTS Clean LaterWritesSucceed NoSpuriousTimeout ArmedOnlyBlocked", "PROPERTY NoStuckWriter"]
 
 
 def mw_run(work, binary, verdict, stats, tier, seed):
@@ -538,9 +541,212 @@ def parallel(fns, n):
             f.result()
 
 
+# ================================================================ C12: routing (MuxRoute)
+
+MR_SEQ_PREDS = ["AtMostOne", "RightOne", "Identical", "PerConnFifo", "NoForeignUfrag", "GoneAfterRemove"]
+MR_CONC_PREDS = ["AtMostOne", "RightOneWeak", "Identical", "PerConnFifo", "NoForeignUfrag", "GoneAfterRemove"]
+CANON = {"m1": "s1", "m2": "s2"}
+
+
+def canon(x):
+    return CANON.get(x, x)
+
+
+def mr_label(e):
+    ev = e["ev"]
+    if ev in ("Drain",):
+        return None
+    if ev == "GetConn":
+        return "GetConn(%s,%s)" % (e["u"], e["f"])
+    if ev == "WStart":
+        return "WStart(%s,%d,%s)" % (e["p"], e["c"], e["x"])
+    if ev in ("WCheck", "WContains", "WAppend", "WRegister"):
+        return "%s(%s)" % (ev, e["p"])
+    if ev in ("DRead", "DispatchOp"):
+        return "%s(%s,%s)" % (ev, e["x"], e["kd"])
+    if ev in ("RStart", "RemoveOp"):
+        return "%s(%s)" % (ev, e["u"])
+    if ev in ("CloseConn", "CloseOp"):
+        return "%s(%d)" % (ev, e["c"])
+    if ev == "WriteOp":
+        return "WriteOp(%d,%s)" % (e["c"], e["x"])
+    return ev
+
+
+def listed_conns(post):
+    return {c for f in post["listed"].values() for c in f.values() if c}
+
+
+def mr_binding_shape(lines, start, idx, c, k):
+    """How the binding k -> c that outlived the removal of c came about (shape of the history)."""
+    ev = lambda i: lines[i]["ev"]  # noqa: E731
+    # when c left the tables, when its removal completed
+    t_unlist = next((i for i in range(start + 1, idx + 1) if c in listed_conns(lines[i - 1]["post"]) and c not in listed_conns(lines[i]["post"])), None)
+    if t_unlist is None:
+        return "binding to a connection that is still listed"
+    t_gone = next((i for i in range(t_unlist, idx + 1) if ev(i) in ("RUnmap", "RemoveOp", "CloseOp", "CloseConn", "CloseMux")), idx)
+    # the step that (last) bound k to c
+    j = next((i for i in range(idx, start, -1) if lines[i]["post"]["amap"].get(k) == c and lines[i - 1]["post"]["amap"].get(k) != c), None)
+    if j is None:
+        return "other"
+    if j <= t_gone:
+        # the binding was there before the removal completed and was not deleted: the address list of c lacked the address
+        for i in range(idx, start, -1):
+            e = lines[i]
+            if e["ev"] == "WRegister" and lines[i - 1]["post"]["wc"].get(e["p"]) == c and lines[i - 1]["post"]["amap"].get(k) == c \
+                    and k in lines[i - 1]["post"]["caddrs"][c - 1] and k not in e["post"]["caddrs"][c - 1]:
+                return "duplicate registration on one connection"
+        return "binding survived removal"
+    e = lines[j]
+    if e["ev"] == "WriteOp":
+        w_start, w_append = j, j
+    else:
+        p = e.get("p")
+        w_start = next((i for i in range(j, start, -1) if lines[i]["ev"] == "WStart" and lines[i].get("p") == p), start)
+        w_append = next((i for i in range(j, start, -1) if lines[i]["ev"] == "WAppend" and lines[i].get("p") == p), j)
+    if w_start > t_unlist:
+        return "write on an unlisted connection"
+    if w_append < t_gone:
+        return "removal between append and register"
+    return "removal before the append of a write in progress"
+
+
+def mr_features(pred, lines, idx, start, detail):
+    e = lines[idx]
+    post, pre = e["post"], lines[idx - 1]["post"] if idx > start else e["post"]
+    f = {"predicate": pred, "ev": e["ev"], "mode": lines[start].get("mode")}
+    made = post["made"]
+    if pred == "GoneAfterRemove":
+        shape = "other"
+        unl = [c for c in range(1, made + 1) if c not in listed_conns(post)]
+        bound = [(c, k) for k, c in post["amap"].items() if c in unl]
+        delivered = [d["c"] for d in e.get("rx", [])] if e["ev"] == "DispatchOp" else \
+            [c for c in range(1, made + 1) if len(post["q"][c - 1]) > len(pre["q"][c - 1])]
+        if any(post["closed"][c - 1] and post["q"][c - 1] for c in range(1, made + 1)):
+            shape = "closed connection holds datagrams"
+        elif bound:
+            c, k = sorted(bound)[0]
+            shape = mr_binding_shape(lines, start, idx, c, k)
+        elif any(c in unl for c in delivered):
+            c = [c for c in delivered if c in unl][0]
+            k = canon(e.get("x") or (post["q"][c - 1][-1]["src"] if post["q"][c - 1] else "-"))
+            # the binding the dispatcher used: the one in place when it looked the source up
+            at = next((i for i in range(idx, start, -1) if lines[i]["ev"] in ("DLookup", "DispatchOp")), idx)
+            at = at - 1 if lines[at]["ev"] == "DispatchOp" else at
+            if lines[at]["post"]["amap"].get(k) == c:
+                shape = mr_binding_shape(lines, start, at, c, k)
+            else:
+                shape = "delivery to a removed connection"
+        f["shape"] = shape
+    elif pred == "RightOne":
+        exp = int(detail[0]) if detail else -1
+        got = sorted(d["c"] for d in e.get("rx", []))
+        f.update({"expected": exp, "got": got, "x": e.get("x"), "kd": e.get("kd")})
+        shape = "other"
+        if exp > 0 and not got:
+            k = canon(e.get("x"))
+            for i in range(idx, start, -1):
+                was = exp in listed_conns(lines[i - 1]["post"]) or lines[i - 1]["post"]["amap"].get(k) == exp
+                now = exp in listed_conns(lines[i]["post"]) or lines[i]["post"]["amap"].get(k) == exp
+                lost = (exp in listed_conns(lines[i - 1]["post"]) and exp not in listed_conns(lines[i]["post"])) or \
+                       (lines[i - 1]["post"]["amap"].get(k) == exp and lines[i]["post"]["amap"].get(k) != exp)
+                if lost:
+                    if lines[i]["ev"] in ("CloseOp", "CloseConn") and lines[i].get("c") != exp:
+                        shape = "close of one connection unlisted another connection of the same ufrag"
+                    break
+                _ = (was, now)
+        f["shape"] = shape
+    else:
+        f.update({k: e[k] for k in ("x", "kd", "c", "u") if k in e})
+    return f
+
+
+def mr_describe(lines, viols, sp):
+    resets = split_traces(lines)
+    details = {(x[0], x[1]): x[2:] for x in viols}
+    out, count = [], collections.Counter()
+    for pred, idx, start in onsets(viols, resets, {"GoneAfterRemove"}):
+        feat = mr_features(pred, lines, idx, start, details.get((pred, idx + 1), ()))
+        cls = (pred, feat.get("shape"), feat.get("ev"))
+        count[cls] += 1
+        if count[cls] > 25:      # enough cases of one shape from this shard
+            continue
+        feat["step"] = idx - start
+        out.append({"features": feat, "replay": {
+            "property": "C12", "family": FAMILY, "driver": "TestMuxRoute", "predicate": pred, "features": feat, "job": sp["job"],
+            "path": [mr_label(x) for x in lines[start + 1:idx + 1] if mr_label(x)],
+            "events": [{k: x[k] for k in x if k != "post"} for x in lines[start:idx + 1][-40:]], "last_post": lines[idx]["post"]}})
+    return out
+
+
+def mr_consts(c):
+    return ["Ufrags = " + tla_set(c["ufrags"]), "Fams = " + tla_set(c["fams"]), "Srcs = " + tla_set(c["srcs"]), "Kinds = " + tla_set(c["kinds"]),
+            "Writers = " + tla_set(c["writers"]), "MaxConns = %d" % c["maxconns"], "MaxGrams = %d" % c.get("grams", 1),
+            "MaxWrites = %d" % c.get("writes", 1), "MaxRemoves = %d" % c.get("removes", 1), "MaxCloses = %d" % c.get("closes", 1),
+            "StaleWrites = %s" % ("TRUE" if c.get("stale") else "FALSE"), "MuxClose = %s" % ("TRUE" if c.get("muxclose") else "FALSE"),
+            "SetupFirst = %s" % ("TRUE" if c.get("setupfirst") else "FALSE"), "MaxOps = %d" % c.get("ops", 0)]
+
+
+def mr_job(c):
+    return {"mode": c["mode"], "ufrags": c["ufrags"], "fams": c["fams"], "keys": sorted({canon(x) for x in c["srcs"]}),
+            "writers": c["writers"], "maxconns": c["maxconns"]}
+
+
+def mr_config(work, binary, verdict, stats, seed, key, c, timeout=900):
+    """Exhaustive TLC run of one MuxRoute configuration, then its complete graph edge-covered on the real mux."""
+    seq = c["mode"] == "seq"
+    consts = mr_consts(c)
+    cfg = write_cfg(work, "MC_%s.cfg" % key, ["SPECIFICATION %s" % ("SeqSpec" if seq else "Spec"), "CONSTANTS"] + consts +
+                    (["CONSTRAINT SeqBound"] if seq else []) + ["INVARIANTS TypeOK AtMostOne PerConnFifo ClosedEmpty", "CHECK_DEADLOCK FALSE"])
+    r = model_check(work, "MuxRoute", cfg, stats, key, timeout, dump=work.path(key + ".dot"))
+    must_hold(r, key)
+    g = Graph(work.path(key + ".dot"))
+    paths, _ = g.plan(seed)
+    replay(work, binary, "mr", paths, mr_job(c), consts, MR_SEQ_PREDS if seq else MR_CONC_PREDS, key, seed, stats, verdict,
+           graph=g, cover_key=key, nshards=c.get("shards", 4))
+
+
+def mr_cex(work, binary, verdict, stats, seed, key, c, invariant="GoneAfterRemove"):
+    """TLC's counterexample to a C12 invariant of the model becomes a directed schedule for the real mux."""
+    seq = c["mode"] == "seq"
+    consts = mr_consts(c)
+    cfg = write_cfg(work, "MC_%s.cfg" % key, ["SPECIFICATION %s" % ("SeqSpec" if seq else "Spec"), "CONSTANTS"] + consts +
+                    (["CONSTRAINT SeqBound"] if seq else []) + ["INVARIANT " + invariant, "CHECK_DEADLOCK FALSE"])
+    r = v.require(v.tlc(work.dir, "MuxRoute", cfg=cfg, timeout=600), key)
+    cex = cex_path(r.out) if r.invariants_violated else []
+    with LOCK:
+        stats.setdefault("model_counterexamples", []).append({"spec": "MuxRoute", "cfg": key, "invariant": invariant, "found": bool(cex),
+                                                              "states": r.distinct, "schedule": cex})
+    if cex:
+        replay(work, binary, "mr", [cex], mr_job(c), consts, MR_SEQ_PREDS if seq else MR_CONC_PREDS, key, seed, stats, verdict,
+               cover_key=key, nshards=1)
+
+
+MR_BASE = {"ufrags": ["u1", "u2"], "fams": ["4", "6"], "srcs": ["s1", "m1", "s6"], "kinds": ["data", "u1", "u2", "ux"], "writers": ["w1"],
+           "maxconns": 3, "stale": True, "muxclose": True, "mode": "seq"}
+
+
+def mr_run(work, binary, verdict, stats, tier, seed):
+    quick = tier == "quick"
+    seqc = dict(MR_BASE, ops=6 if quick else 7)
+    conc_a = {"mode": "conc", "ufrags": ["u1", "u2"], "fams": ["4"], "srcs": ["s1"], "kinds": ["data", "u1"], "writers": ["w1", "w2"],
+              "maxconns": 2, "grams": 1 if quick else 2, "writes": 2, "removes": 1, "closes": 0, "stale": False, "setupfirst": True}
+    conc_b = {"mode": "conc", "ufrags": ["u1"], "fams": ["4"], "srcs": ["s1", "m1"] if not quick else ["s1"], "kinds": ["data", "u1"],
+              "writers": ["w1", "w2"], "maxconns": 1, "grams": 2, "writes": 2, "removes": 1, "closes": 1, "stale": False, "setupfirst": True}
+    cex_a = dict(MR_BASE, ops=5)
+    cex_b = dict(conc_a, grams=1)
+    jobs = [lambda: mr_config(work, binary, verdict, stats, seed, "MuxRoute_seq", seqc, 1500),
+            lambda: mr_config(work, binary, verdict, stats, seed, "MuxRoute_conc_2conns", conc_a, 1500),
+            lambda: mr_config(work, binary, verdict, stats, seed, "MuxRoute_conc_1conn", conc_b, 1500),
+            lambda: mr_cex(work, binary, verdict, stats, seed, "MuxRoute_cex_stale_handle", cex_a),
+            lambda: mr_cex(work, binary, verdict, stats, seed, "MuxRoute_cex_removal_race", cex_b)]
+    parallel(jobs, 3)
+
+
 FAMILIES = {
     "mw": {"test": "TestMuxWrite", "trace": "MuxWriteTrace", "mon": "MuxWriteMon", "label": mw_label, "describe": mw_describe},
     "sc": {"test": "TestSharedConn", "trace": "SharedConnTrace", "mon": "SharedConnMon", "label": sc_label, "describe": sc_describe},
+    "mr": {"test": "TestMuxRoute", "trace": "MuxRouteTrace", "mon": "MuxRouteMon", "label": mr_label, "describe": mr_describe},
 }
 
 
@@ -566,5 +772,25 @@ def c13(tier, seed):
     return verdict.finish()
 
 
-PLANS = {"C13": c13}
+C12_ASSUME = ["the shared socket is a fake net.PacketConn with an unspecified local address (both IP families served); source forms: "
+              "IPv4, the IPv4-mapped IPv6 form of the same address, IPv6",
+              "sequential histories: one whole operation at a time, each datagram read by the connection's user right after its dispatch; "
+              "concurrent histories: one step = the code between two verifhook yield points, connections created before the race starts",
+              "one handle per muxed connection (handle sharing is C13); STUN datagrams always carry a USERNAME"]
+
+
+def c12(tier, seed):
+    verdict = v.Verdict("C12", tier, seed)
+    stats = new_stats()
+    with v.Work("C12") as work:
+        work.copy_specs(FAMILY)
+        binary = v.build_harness(work, pkg=FAMILY)
+        mr_run(work, binary, verdict, stats, tier, seed)
+    verdict.coverage.update(stats)
+    verdict.coverage["predicates"] = sorted(set(MR_SEQ_PREDS + MR_CONC_PREDS))
+    verdict.assumptions = C12_ASSUME
+    return verdict.finish()
+
+
+PLANS = {"C12": c12, "C13": c13}
 MANIFEST = {}
